@@ -108,14 +108,28 @@ def run(R):
         def target_read(v):
             s_ = q.src(v)
             return s_.startswith("self._target.") or s_.startswith("getattr(self._target")
+        def reads_target(v):
+            if target_read(v):
+                return True
+            # a local that only ever holds a read of the target (`current = getattr(self._target, ...)`)
+            if isinstance(v, ast.Name):
+                vals_ = common.assigned_values(res.node, v.id)
+                return bool(vals_) and all(k_ == "expr" and target_read(x_) for k_, x_ in vals_)
+            return False
+
+        def read_src(v):
+            if isinstance(v, ast.Name):
+                vals_ = common.assigned_values(res.node, v.id)
+                return q.src(vals_[0][1]) if vals_ else q.src(v)
+            return q.src(v)
         for n in rcfg.nodes:
             if n.kind != "stmt":
                 continue
             a = n.ast
             if isinstance(a, ast.Assign) and len(a.targets) == 1 and isinstance(a.targets[0], ast.Attribute) and q.dotted(a.targets[0].value) == "self" \
-                    and target_read(a.value):
+                    and reads_target(a.value):
                 slot = a.targets[0].attr if slot in (None, a.targets[0].attr) else slot
-                saves.append((n, q.src(a.value)))
+                saves.append((n, read_src(a.value)))
             elif isinstance(a, ast.Assign) and q.src(a.value) == "self._value" and any(q.src(t).startswith("self._target") for t in a.targets):
                 sets.append((n, q.src(a.targets[0])))
             elif isinstance(a, ast.Expr) and isinstance(a.value, ast.Call) and q.call_name(a.value) == "setattr" and len(a.value.args) == 3 \
